@@ -100,8 +100,15 @@ func run(dir string, extraEnv []string, name string, args ...string) ([]byte, er
 	return cmd.CombinedOutput()
 }
 
+// scratchDirs are removed when the driver leaves through trouble() (os.Exit skips
+// deferred calls): nothing a later command needs is kept under /tmp.
+var scratchDirs []string
+
 func trouble(format string, args ...interface{}) {
 	fmt.Fprintf(os.Stderr, "HARNESS-TROUBLE: "+format+"\n", args...)
+	for _, d := range scratchDirs {
+		os.RemoveAll(d)
+	}
 	os.Exit(2)
 }
 
@@ -110,6 +117,7 @@ func trouble(format string, args ...interface{}) {
 func build(p *propCfg, eng engineKind) (scratch string) {
 	scratch = filepath.Join(tmpBase, fmt.Sprintf("%s-%d-%d", p.id, os.Getpid(), eng))
 	os.RemoveAll(scratch)
+	scratchDirs = append(scratchDirs, scratch)
 	if err := os.MkdirAll(scratch, 0755); err != nil {
 		trouble("mkdir: %v", err)
 	}
